@@ -57,6 +57,32 @@ func lenLower(x ssa.Value, b *ssa.BasicBlock, depth int) int64 {
 		if n, ok := constInt(d.Len); ok {
 			lo = n
 		}
+	case *ssa.Parameter:
+		// a parameter of an unexported function that is only ever called directly: what every call site establishes
+		if fn := d.Parent(); boundsProg != nil && depth < 3 && fn.Object() != nil && !fn.Object().Exported() && !boundsProg.usedAsValue()[fn] {
+			idx := -1
+			for i, q := range fn.Params {
+				if q == d {
+					idx = i
+				}
+			}
+			sites := boundsProg.staticCallers()[fn]
+			if idx >= 0 && len(sites) > 0 {
+				min := int64(-1)
+				for _, cs := range sites {
+					n := int64(0)
+					if idx < len(cs.Common().Args) {
+						n = lenLower(cs.Common().Args[idx], cs.Block(), depth+1)
+					}
+					if min < 0 || n < min {
+						min = n
+					}
+				}
+				if min > lo {
+					lo = min
+				}
+			}
+		}
 	case *ssa.Slice:
 		if depth < 4 {
 			l, lok := int64(0), d.Low == nil
@@ -80,6 +106,46 @@ func lenLower(x ssa.Value, b *ssa.BasicBlock, depth int) int64 {
 			}
 		}
 	case *ssa.Call:
+		// the result of a function of the repository: the least length over its returns; a nil return counts only
+		// where the site is not behind a "!= nil" test of the result
+		if cal := calleeOf(d); cal != nil && boundsProg != nil && len(cal.Blocks) > 0 && depth < 3 && (cal.Pkg == boundsProg.Slog || cal.Pkg == boundsProg.Strs || cal.Pkg == boundsProg.Times) && cal.Signature.Results().Len() == 1 {
+			nonNilHere := false
+			for _, g := range guardsOf(b) {
+				cond, neg := normCond(g.If.Cond)
+				if bo, ok := cond.(*ssa.BinOp); ok && strip(bo.X) == x && isNilConst(bo.Y) {
+					taken := (g.Succ == 0) != neg
+					if (bo.Op == token.NEQ && taken) || (bo.Op == token.EQL && !taken) {
+						nonNilHere = true
+					}
+				}
+			}
+			min, any := int64(-1), false
+			for _, rb := range cal.Blocks {
+				ret, ok := rb.Instrs[len(rb.Instrs)-1].(*ssa.Return)
+				if !ok {
+					continue
+				}
+				for _, src := range sources(ret.Results[0]) {
+					if isNilConst(src) {
+						if !nonNilHere {
+							min, any = 0, true
+						}
+						continue
+					}
+					blk := rb
+					if in, ok := src.(ssa.Instruction); ok && in.Block() != nil {
+						blk = in.Block()
+					}
+					n := lenLower(src, blk, depth+1)
+					if !any || n < min {
+						min, any = n, true
+					}
+				}
+			}
+			if any && min > lo {
+				lo = min
+			}
+		}
 		if cal := calleeOf(d); cal != nil && cal.Pkg != nil && cal.Pkg.Pkg.Path() == "strings" {
 			switch cal.Name() {
 			case "Split", "SplitAfter":
